@@ -169,6 +169,9 @@ type Violation struct {
 	Labels  []string  `json:"labels,omitempty"`
 	Sample  any       `json:"sample,omitempty"`
 	Fails   []Failure `json:"failures"`
+	// Unstable: the failure did not reproduce when the same choice vector was re-executed in the same process
+	// (the code under test keeps state between executions). fw re-checks such a violation in fresh processes.
+	Unstable bool `json:"unstable,omitempty"`
 }
 
 // Stats is what one exploration covered.
@@ -528,7 +531,8 @@ func Explore(h Harness) (Stats, []Violation, error) {
 				}
 			}
 			if !found {
-				return st, vs, ToolError{fmt.Sprintf("NONDETERMINISM: violation %s of harness %s did not reproduce on re-run %d of choices %v", vs[i].Fails[0].Key, h.Name, r, vs[i].Choices)}
+				vs[i].Unstable = true
+				break
 			}
 		}
 	}
